@@ -154,7 +154,7 @@ def _lr_prefix(out):
     out.cov["states"] += r["stats"]["states"]
     out.cov["transitions"] += r["stats"]["generated"]
     for c in r["cases"]:
-        if c["consume"] or not c["built"]:
+        if c["consume"] or not c["built"] or c.get("overlap"):
             continue
         out.count()
         if c["lr"]["kind"] == "tree" and len(c["input"]) >= 1:
